@@ -1,5 +1,5 @@
 SOURCE_COMMITS = []  # no guarded hook commits: instrumentation is harness-side only
-FIX_COMMITS = ["72224cf", "5e98ecd", "2300819", "45660fa", "ac83a8e", "f5d3225"]
+FIX_COMMITS = ["72224cf", "5e98ecd", "2300819", "45660fa", "ac83a8e", "f5d3225", "01d6c3c"]
 NOTES = "Runtime monitoring of the real repid code; see DESIGN.md. Verdicts are 'held on the executions produced', never proofs."
 NOT_APPLICABLE = {}
 CHECKS = {
@@ -30,6 +30,13 @@ CHECKS = {
         "text": "Single delayed messages over a grid of due offsets (past .. +30 d), 12 positions of now inside the second, 6 consumer phases and three ways of creating the delay, plus queues with several non-monotone due times and category-visibility probes, on the three brokers: a delivery more than 1 ms before T is a violation, so is no delivery within 10 s of virtual time after max(T, consumer start), so is visibility through a NORMAL/DEAD consumer before T.",
         "note": "Virtual time; fakes; RabbitMQ head-of-queue TTL expiry (documented server rule R2) makes short delays behind long ones late: recorded as a known finding, keyed by the multi-message non-monotone pattern.",
         "ref": "DESIGN.md 5/C05",
+    },
+    "C12": {
+        "level": "exploration",
+        "technique": "runtime monitoring: expiry oracle over observed actor-start and first-seen-dead instants (per-loop-iteration state probe) on a virtual clock with exact boundary placement",
+        "text": "Jobs with ttl in {1,1.5,4,3600,none} are delivered to a real Worker at E-1s, E-1us, E, E+1us, E+1s (clock stepped to the exact instant) as immediate, delayed (T<E, T>E), retried (back-off inside / across E) and recurring (clock restarted) messages on three brokers. Executed => start <= expiry carried by the delivered message; dead-lettered without failure => first instant it is seen dead > E (probe at every loop iteration, so the boundary is exact at zero latency); dead-lettered => returned by a DEAD consumer.",
+        "note": "Virtual time; fakes; redis instants approximate (priority polling sleeps) so its allowance is 0.35 s.",
+        "ref": "DESIGN.md 5/C12",
     },
     "C19": {
         "level": "exploration",
